@@ -608,3 +608,32 @@ def probe_coarsen_tasks(seed=0, max_ms=3.0):
     agg._verif_probe = True
     STATE["attached"].append((R.CoolerCoarsener, "aggregate", orig))
     R.CoolerCoarsener.aggregate = agg
+
+
+def probe_multiplier_sequence():
+    import cooler._reduce as R
+
+    def factory(orig):
+        @functools.wraps(orig)
+        def w(resolutions, bases=None):
+            res = orig(resolutions, bases)
+            try:
+                _count("multiplier_sequence")
+                resn, pred, mult = (np.asarray(x) for x in res)
+                bs = set(bases) if bases is not None else {min(resolutions)}
+                ok = bool(np.all(np.diff(resn) > 0)) and set(resn.tolist()) == set(resolutions) | bs
+                for i in range(len(resn)):
+                    if pred[i] == -1:
+                        ok = ok and int(resn[i]) in bs
+                    else:
+                        ok = ok and 0 <= pred[i] < i and resn[pred[i]] * mult[i] == resn[i] and mult[i] >= 2
+                if not ok:
+                    pfail("multiplier_sequence", "C09", "probe:multiplier-sequence-inconsistent",
+                          "resn/pred/mult are not a consistent derivation of every resolution from a base",
+                          {"resn": resn, "pred": pred, "mult": mult, "bases": sorted(bs)})
+            except Exception as ex:
+                pfail("multiplier_sequence", "C09", "probe:multiplier_sequence-error", f"probe error {ex!r}")
+            return res
+        return w
+
+    attach([(R, "get_multiplier_sequence")], factory)
